@@ -179,6 +179,10 @@ pub struct RcEnc {
     /// carries propagated / longest pending 0xFF run (statistics)
     pub carries: u64,
     pub max_pending: u64,
+    /// times the range register sat right at the normalisation threshold when the test
+    /// `range < 2^24` was about to be made: [after a model bit, after a direct-bit halving]
+    /// x [2^24 - 1, 2^24, 2^24 + 1]
+    pub boundary: [u64; 6],
 }
 
 impl Default for RcEnc {
@@ -198,6 +202,17 @@ impl RcEnc {
             norms: 0,
             carries: 0,
             max_pending: 0,
+            boundary: [0; 6],
+        }
+    }
+
+    #[inline]
+    fn note_boundary(&mut self, site: usize) {
+        match self.range {
+            0x00FF_FFFF => self.boundary[site * 3] += 1,
+            0x0100_0000 => self.boundary[site * 3 + 1] += 1,
+            0x0100_0001 => self.boundary[site * 3 + 2] += 1,
+            _ => {}
         }
     }
 
@@ -243,12 +258,14 @@ impl RcEnc {
             self.range -= bound;
             *prob -= *prob >> 5;
         }
+        self.note_boundary(0);
         self.normalize();
     }
 
     pub fn direct(&mut self, value: u32, nbits: u32) {
         for i in (0..nbits).rev() {
             self.range >>= 1;
+            self.note_boundary(1);
             if (value >> i) & 1 != 0 {
                 self.low += self.range as u64;
             }
@@ -289,6 +306,35 @@ impl RcEnc {
     /// Bytes an eager decoder has consumed so far (preamble + one per shift).
     pub fn decoder_consumed(&self) -> u64 {
         5 + self.norms
+    }
+}
+
+/// The range register alone, walked over read-only probabilities (searches).
+#[derive(Clone, Copy)]
+pub struct RangeWalk {
+    pub range: u32,
+}
+
+impl RangeWalk {
+    #[inline]
+    pub fn bit(&mut self, p: u16, bit: u32) {
+        let bound = (self.range >> 11) * (p as u32);
+        if bit == 0 {
+            self.range = bound;
+        } else {
+            self.range -= bound;
+        }
+        while self.range < 0x0100_0000 {
+            self.range <<= 8;
+        }
+    }
+    pub fn tree(&mut self, probs: &[u16], nbits: u32, value: u32) {
+        let mut m = 1usize;
+        for i in (0..nbits).rev() {
+            let b = (value >> i) & 1;
+            self.bit(probs[m], b);
+            m = (m << 1) | b as usize;
+        }
     }
 }
 
@@ -356,6 +402,41 @@ impl<'a> Encoder<'a> {
             rc.bit(&mut lp.choice2, 1);
             rc.tree(&mut lp.high, 8, l - 16);
         }
+    }
+
+    /// Range register after the header bits of a NEW match of this length at the current
+    /// position (is_match = 1, is_rep = 0, length), without touching anything. Exact,
+    /// because no probability is used twice within one symbol.
+    pub fn trial_match_len(&self, len: u32) -> u32 {
+        let pos = self.hist.len() as u64;
+        let pos_state = (pos & ((1u64 << self.model.props.pb) - 1)) as usize;
+        let m = &*self.model;
+        let mut w = RangeWalk { range: self.rc.range };
+        w.bit(m.is_match[m.state][pos_state], 1);
+        w.bit(m.is_rep[m.state], 0);
+        let lp = &m.len;
+        let l = len - 2;
+        if l < 8 {
+            w.bit(lp.choice, 0);
+            w.tree(&lp.low[pos_state], 3, l);
+        } else if l < 16 {
+            w.bit(lp.choice, 1);
+            w.bit(lp.choice2, 0);
+            w.tree(&lp.mid[pos_state], 3, l - 8);
+        } else {
+            w.bit(lp.choice, 1);
+            w.bit(lp.choice2, 1);
+            w.tree(&lp.high, 8, l - 16);
+        }
+        w.range
+    }
+
+    /// Continue `trial_match_len`: range register after the 6 distance-slot bits.
+    pub fn trial_slot(&self, range_after_len: u32, len: u32, slot: u32) -> u32 {
+        let len_state = std::cmp::min(len - 2, 3) as usize;
+        let mut w = RangeWalk { range: range_after_len };
+        w.tree(&self.model.pos_slot[len_state], 6, slot);
+        w.range
     }
 
     fn encode_distance(&mut self, d: u32, len: u32) {
